@@ -410,6 +410,13 @@ def check(ctx):
     check_matrix(ctx)
     check_pairwise(ctx)
     check_threads(ctx)
+    # "every explicit selection or ordering of reference indices", "every container": the reference chunk refs[idx] must be
+    # exactly the selected signatures in the selected order - the C20 selection clauses, re-evaluated
+    from . import c20
+    rep.rule('X3', 'C20-X3 re-evaluated: index normalisation'); rep.rule('X4', 'C20-X4 re-evaluated: element / slice arithmetic of concatenated collections')
+    rep.rule('X5', 'C20-X5 re-evaluated: index-array selections keep order, repeats and dtype; no shortcut return')
+    c20.check_arith(ctx)
+    c20.check_subcollections(ctx)
 
 
 from ..variants import V  # noqa: E402
@@ -435,6 +442,9 @@ VARIANTS = [
     V('result post-processed', 'B', _P, "\t\t\t\tmeter.increment(len(ref_chunk))\n\n\treturn out", "\t\t\t\tmeter.increment(len(ref_chunk))\n\n\treturn np.round(out, 6)", 'B1'),
     V('out allocated as float64', 'B', _P, "out = np.empty((nqueries, nrefs), SCORE_DTYPE)", "out = np.empty((nqueries, nrefs), np.float64)", 'B1'),
     V('diagonal not zeroed', 'B', _P, "\t\tnp.fill_diagonal(out, 0)", "\t\tpass", 'B6'),
+    V('consecutive-run fast path judged by the endpoints only (seeded C05a)', 'B', 'src/gambit/sigs/base.py',
+      "\tdef _getitem_int_array(self, indices):\n\t\tout = SignatureArray.uninitialized(",
+      "\tdef _getitem_int_array(self, indices):\n\t\tn = len(indices)\n\t\tif n > 1 and int(indices[-1]) - int(indices[0]) == n - 1:\n\t\t\treturn self._getitem_slice(slice(int(indices[0]), int(indices[-1]) + 1))\n\t\tout = SignatureArray.uninitialized(", 'X5'),
     V('E: ncol = n - (i + 1)', 'E', _P, "ncol = n - i - 1", "ncol = n - (i + 1)"),
     V('E: cols = slice(1 + i, n)', 'E', _P, "cols = slice(i + 1, n)", "cols = slice(1 + i, n)"),
     V('E: begin/end inlined differently named', 'E', _X, "\t\tbegin = ref_bounds[i]\n\t\tend = ref_bounds[i+1]\n\t\tout[i] = c_jaccarddist(query, ref_coords[begin:end])",
